@@ -93,9 +93,11 @@ impl Property for C02 {
     fn generate(&self, g: &mut SplitMix, k: &mut SplitMix, _tier: Tier) -> (Knobs, Value) {
         let knobs = Knobs::draw(k);
         let u = universe();
+        SELF_INSERT_OK.store(true, std::sync::atomic::Ordering::Relaxed);
         let tree = gen_tree(g, &u, true);
         let n = 1 + g.below(40) as usize;
         let ops = gen_ops(g, &u, n, true);
+        SELF_INSERT_OK.store(false, std::sync::atomic::Ordering::Relaxed);
         (knobs, serde_json::to_value(Work { tree, variant: g.below(4) as u8, ops }).unwrap())
     }
     fn execute(&self, case: &Case) -> Outcome {
